@@ -1,6 +1,7 @@
 import Driver.Common
 import Scion.Util.R2Aes
 import Scion.Model.Ohp
+import Scion.Model.Epic
 /-! Driver for engine `router2` (C12 one-hop paths, C13 EPIC, C15 links declared down).
     Parses the op, instantiates the `mac`/`prf` parameters with AES-CMAC / AES-CBC, calls the model, prints. -/
 namespace Driver.Router2
@@ -41,8 +42,58 @@ def handleOhp : List String → Option String
     some (renderOhp (Scion.Ohp.process cfg (cmacWith key) pkt))
   | _ => none
 
+def cbcWith : Scion.Epic.Prf := fun key m => Scion.R2Aes.cbcLast key m
+
+def handleEpic : List String → Option String
+  | [loc, ing, src, dst, lb, sa, pl, pts, ctr, phvf, lhvf, sp, now, key, inner] => do
+    let loc ← loc.toNat?
+    let ing ← ing.toNat?
+    let src ← src.toNat?
+    let dst ← dst.toNat?
+    let lb ← lb.toNat?
+    let sa ← unhex sa
+    let pl ← pl.toNat?
+    let pts ← pts.toNat?
+    let ctr ← ctr.toNat?
+    let phvf ← unhex phvf
+    let lhvf ← unhex lhvf
+    let sp ← unhex sp
+    let now ← now.toNat?
+    let key ← unhex key
+    let inner ← (if inner == "fwd" then some Scion.Epic.Inner.fwd else if inner == "other" then some .other else none)
+    let pkt : Scion.Epic.Pkt := { ingress := ing, srcIA := src, dstIA := dst, srcLenBits := lb, srcAddr := sa, payloadLen := pl, pktTs := pts, pktCtr := ctr, phvf := phvf, lhvf := lhvf, scionPath := sp }
+    match Scion.Epic.process loc (cmacWith key) cbcWith now inner pkt with
+    | .asInner => some "inner"
+    | .drop => some "drop"
+  | _ => none
+
+def handleEts : List String → Option String
+  | [ts0, pts, now] => do
+    let ts0 ← ts0.toNat?
+    let pts ← pts.toNat?
+    let now ← now.toNat?
+    some (if Scion.Epic.fresh ts0 pts now then "ok" else "bad")
+  | _ => none
+
+def handleEmac : List String → Option String
+  | [auth, lb, sa, src, pl, ts0, pts, ctr] => do
+    let auth ← unhex auth
+    let lb ← lb.toNat?
+    let sa ← unhex sa
+    let src ← src.toNat?
+    let pl ← pl.toNat?
+    let ts0 ← ts0.toNat?
+    let pts ← pts.toNat?
+    let ctr ← ctr.toNat?
+    let pkt : Scion.Epic.Pkt := { ingress := 0, srcIA := src, dstIA := 0, srcLenBits := lb, srcAddr := sa, payloadLen := pl, pktTs := pts, pktCtr := ctr, phvf := [], lhvf := [], scionPath := [] }
+    some (hexOf (Scion.Epic.calcMac cbcWith auth pkt ts0))
+  | _ => none
+
 def handle : List String → String
   | "ohp" :: rest => (handleOhp rest).getD "bad-op"
+  | "epic" :: rest => (handleEpic rest).getD "bad-op"
+  | "ets" :: rest => (handleEts rest).getD "bad-op"
+  | "emac" :: rest => (handleEmac rest).getD "bad-op"
   | _ => "bad-op"
 
 end Driver.Router2
